@@ -165,10 +165,11 @@ Fixpoint interp (steps : list N) (root x : str) : res str :=
 Definition expected_steps : list (N * list N) :=
   [(1, [1; 2; 3]); (2, [1; 2; 3]); (3, [1; 2; 3]); (4, [4; 5; 1; 2; 6]); (5, [7; 8; 2; 6]); (6, [1; 2; 6])].
 (* create_checkpoint relativises every path and joins it to the root before it creates the store entry, probes
-   and reads that joined path only; rewind joins the recorded path to the root; every path-taking tool resolves
+   and reads that joined path only; rewind sends every recorded path through safe_join before it joins it to the
+   root; session and checkpoint ids are joined through store_component only; every path-taking tool resolves
    its argument before its first file-system / process use; no builtin module the extractor does not know *)
 Definition expected_orders : list (N * list N) :=
-  [(10, [1; 2; 3; 4; 5]); (11, [1; 1]); (20, [1; 2]); (21, [1; 2]); (22, [1; 2]); (23, [1; 2]); (24, [1; 2]);
+  [(10, [1; 2; 3; 4; 5]); (11, [2; 1; 1]); (12, [1; 1; 1; 1]); (20, [1; 2]); (21, [1; 2]); (22, [1; 2]); (23, [1; 2]); (24, [1; 2]);
    (25, [1; 2]); (26, [1; 2]); (30, [1])].
 Definition idl_eqb (a b : N * list N) : bool := (fst a =? fst b) && list_eqb N.eqb (snd a) (snd b).
 Definition resolvers_wf (found : bool) (steps orders : list (N * list N)) : bool :=
@@ -300,9 +301,8 @@ Definition expected_progs : list (N * list (N * N)) :=
    (21, [(3, 12); (5, 1); (4, 13); (2, 1); (6, 1); (6, 13); (7, 13); (7, 1); (6, 13); (4, 1)]);
    (22, [(8, 1)]);
    (23, [(8, 1); (1, 4)]);
-   (24, [(9, 1)]); (27, [(9, 0)]);
-   (25, [(9, 1)]); (28, [(9, 0)]);
-   (26, [(9, 1)]); (29, [(9, 0)]);
+   (24, [(9, 1)]); (25, [(9, 1)]); (26, [(9, 1)]);
+   (27, [(9, 0)]); (28, [(9, 0)]); (29, [(9, 0)]);
    (40, [(2, 1); (2, 1); (1, 1); (3, 2); (4, 1)]);
    (41, [(2, 1); (2, 1); (1, 1); (6, 1)]);
    (42, [(2, 1); (2, 1); (1, 1); (1, 1); (4, 1)]);
